@@ -52,8 +52,8 @@ def add_chain_suffix(chain_df, motl, traced_df, subtomo_id, current_dist, store_
                 (traced_df[store_idx1] == temp_cl_id) & (traced_df[store_idx2] > order_id),
                 store_idx1,
             ] = current_class
-            new_chain_size = traced_df.loc[(traced_df[store_idx1] == current_class), store_idx2].shape[0]
-            traced_df.loc[(traced_df[store_idx1] == current_class), store_idx2] = np.arange(1, new_chain_size + 1)
+            # the tail keeps its order: the order numbers order_id + 1, order_id + 2, ... become 1, 2, ...
+            traced_df.loc[(traced_df[store_idx1] == current_class), store_idx2] -= order_id
             chain_max_order = np.max(traced_df.loc[traced_df[store_idx1] == temp_cl_id, [store_idx2]].values)
 
     traced_df.loc[traced_df["subtomo_id"] == particle_id, store_dist] = current_dist
@@ -219,6 +219,10 @@ def trace_chains(motl_entry, motl_exit, max_distance, min_distance=0, feature="t
                                     current_class = class_c - 1
                                     cl_max = np.max(ch_m[store_idx2].values)
                                     if cl_max > 1:
+                                        if (nfm_df[store_idx1] == current_class).any():
+                                            # the number went to a tail cut off by add_chain_suffix, a cut-off head needs its own
+                                            current_class = class_c
+                                            class_c += 1
                                         class_max = (cl_max, current_class)
 
                                 add_chain_prefix(ch_m, fm_entry, nfm_df, nm_idx, nm_dist, store_idx1, store_idx2,
